@@ -90,7 +90,8 @@ def plan_listing(steps, R, P, faulty):
         steps.append({'k': 'listing', 'keys': sorted(set(keys)), 'put_prefix': R.choice(['lst/', 'lst/', '']),
                       'prefix': prefix, 'suffix': R.choice([None, None, '.xml', '.mos.xml', '']),
                       'page_size': R.choice([1, 1, 2, 3, 5, 7, 1000]),
-                      'fault_page': (R.randint(0, 3) if faulty and R.random() < 0.15 else None)})
+                      'fault_page': (R.randint(0, 3) if faulty and R.random() < 0.15 else None),
+                      'empty_page': (R.randint(0, 3) if R.random() < 0.2 else None)})
 
 
 # ---------------------------------------------------------------------------
@@ -433,6 +434,7 @@ def do_listing(run, step):
     old = run.s3.page_size
     run.s3.page_size = step['page_size']
     run.s3.list_fault_page = step.get('fault_page')
+    run.s3.empty_page_at = step.get('empty_page')
     fired0 = run.s3.fired['list_error']
     try:
         kw = {} if suffix is None else {'suffix': suffix}
@@ -444,6 +446,7 @@ def do_listing(run, step):
     finally:
         run.s3.page_size = old
         run.s3.list_fault_page = None
+        run.s3.empty_page_at = None
     if exc is None and got is not None and run.s3.fired['list_error'] == fired0:
         # the bucket changes; a second listing must see it
         extra_key = (prefix or '') + 'zz-late-arrival' + want_suffix
